@@ -1,9 +1,16 @@
-from textwrap import indent
+import re
 from typing import Any, Dict, Iterable, List, cast
 
 from ..core import BaseRenderer, BlockState
 from ..util import strip_end
 from ._list import render_list
+
+_line_re = re.compile(r"[^\n]*\n|[^\n]+")
+
+
+def indent(text: str, prefix: str) -> str:
+    # like textwrap.indent, but only a line feed ends a line (str.splitlines also breaks at form feeds, U+2028 ...)
+    return "".join((prefix + line if line.strip() else line) for line in _line_re.findall(text))
 
 
 class RSTRenderer(BaseRenderer):
